@@ -29,6 +29,8 @@ ASSUMPTIONS = [
     'on more bytes than the order (p256_m62/m64), Curve25519 scalars longer than 32 bytes, the return value of '
     'Curve25519 mul() on low-order / twist points, lenient DER forms of valid signatures, out-of-range private '
     'keys given to the signers',
+    'the RFC 6979 retry vector (P-256, SHA-256, first candidate >= n; found by an offline search of 2^32 hash values) has its expected '
+    'signature from mbedTLS 2.28 mbedtls_ecdsa_sign_det_ext; the harness reference must reproduce it (else harness failure)',
     'muladd() with a zero multiplier must return 0 (bearssl_ec.h: "If either integer is zero, then an error is reported")',
 ]
 EVAL = ['cmp_const', 'cmp_mul', 'cmp_mulgen', 'cmp_muladd', 'cmp_invalid_point', 'cmp_kat', 'cmp_sign',
@@ -38,7 +40,7 @@ EVAL = ['cmp_const', 'cmp_mul', 'cmp_mulgen', 'cmp_muladd', 'cmp_invalid_point',
 DISTINCT = ['arith_cfg', 'ecdsa_cfg', 'conv_cfg', 'keygen_cfg', 'vrfy_hashlen']
 REQUIRED = ['cmp_const', 'cmp_mul', 'cmp_mulgen', 'cmp_muladd', 'cmp_muladd_must_fail', 'cmp_muladd_zero_multiplier',
             'cmp_mul_extreme_point', 'cmp_muladd_extreme_point', 'cmp_sign_default', 'cmp_vrfy_default',
-            'cmp_pubkey_encoding_shapes',
+            'cmp_pubkey_encoding_shapes', 'cmp_kat_rfc6979_retry',
             'vrfy_cases_with_e_zero', 'cmp_invalid_point',
             'cmp_kat', 'cmp_sign', 'cmp_vrfy_accept', 'cmp_vrfy_reject', 'cmp_vrfy_must_reject',
             'cmp_conv_r2a', 'cmp_conv_a2r', 'cmp_conv_roundtrip', 'cmp_conv_must_fail',
